@@ -104,7 +104,10 @@ def view(conn, role):
             "sni": str(s.serverName or ""), "sendLimit": int(conn._send_record_limit), "recvLimit": int(conn._recv_record_limit),
             "group": gname, "keyBits": keybits,
             "secretH": hashlib.sha256(sec).hexdigest()[:16], "exporterH": exp,
-            "srvChainH": chain_h(s.serverCertChain), "cltChainH": chain_h(s.clientCertChain),
+            # a resumed connection exchanges no certificates (ticket-based server sessions do not carry the
+            # server's own chain): the chains are compared for full handshakes only
+            "srvChainH": "" if conn.resumed else chain_h(s.serverCertChain),
+            "cltChainH": "" if conn.resumed else chain_h(s.clientCertChain),
             "resumed": bool(conn.resumed)}
 
 
